@@ -542,7 +542,7 @@ func unknownName1(g *RNG, meta *MetaTable) string {
 func genFilterOpts(g *RNG, meta *MetaTable, parent *ModelReg, errP float64) *FilterOpts {
 	names := parent.names()
 	srcs := parent.sourceSet(meta)
-	allSrcs := append(meta.sources(), "Unknown", "RFC3279", "RFC5480", "RFC8813", "NoSuchSource")
+	allSrcs := append(meta.sources(), "Unknown", "RFC3279", "RFC5480", "RFC8813", "NoSuchSource", "CABF", "cabf_br", "CABF_BR ", "RFC", "CABF_SMIME", "CABF_CS", "Mozilla ", "ETSI")
 	o := &FilterOpts{}
 	pickNames := func(k int) []string {
 		if len(names) == 0 {
